@@ -320,7 +320,7 @@ func genClauseDuplicates(t *rapid.T, call func(fns []string) anaCase) []anaCase 
 	var variants []func(c *anaCase)
 	switch what {
 	case "frame":
-		base = call(append(append([]string(nil), valueFns...), aggFns...))
+		base = call(append(append([]string(nil), valueFns...), aggFnsNumeric()...))
 		if !hasOrderCol(base, "id") {
 			base.Order = append(base.Order, orderItem{Col: "id"})
 		}
